@@ -30,7 +30,52 @@ def strip(ev):
     return {k: v for k, v in ev.items() if k not in ("res", "i", "runes")}
 
 
-def judge(chk, drive, jobs, module, cfg, nshards, tags_wanted, shard_key=None, heap="3g", describe=None, timeout=3000):
+
+def reproduce_with_history(chk, drive, evs, ev, why, module, cfg, heap, timeout=6000, pre=None):
+    """The rejection of ev is not reproducible alone: replay everything the original process had run up to it (same projections, so the same
+    allocation pattern) in a fresh process and validate only ev (preceded by the events `pre` of its own pair, if any). State kept in
+    sync.Pool-like caches is dropped by the garbage collector, so a second attempt runs with GOGC=off. Returns the replay object or None."""
+    prefix = [strip(e) for e in evs if e["i"] <= ev["i"]]
+    npre = len(pre or [])
+    for attempt, env in enumerate((None, {"GOGC": "off"}, {"GOGC": "off", "GOMAXPROCS": "1"})):
+        sub = vlib.run_drive(drive, prefix, chk.work, name="repro-prefix", env=env)
+        tail = [e for e in sub if pre and e["i"] in {x["i"] for x in pre}] + sub[-1:]
+        _, bad3, _, _ = vlib.validate_traces(chk.work, module, cfg, [tail], heap=heap, timeout=timeout)
+        if (len(tail), why) in {(b["l"], b["why"]) for b in bad3}:
+            return dict(jobs=prefix, expect=why, module=module, last_only=True, keep=[x["i"] for x in (pre or [])], env=env or {})
+    return None
+
+
+def error_path_jobs(evs, n):
+    """Refused calls followed at once by an accepted call of the same kind: what a failed call leaves behind (a buffer returned to a pool half
+    filled, a partially updated table) must not leak into the next barcode. Built from the outcomes of the main run; executed in a fresh process."""
+    enc = [e for e in evs if e.get("op") == "encode" and e.get("res", {}).get("kind") in ("ok", "error")]
+    rej = [e for e in enc if e["res"]["kind"] == "error"]
+    acc = [e for e in enc if e["res"]["kind"] == "ok"]
+    if not rej or not acc:
+        return []
+    # per entry-point shape (family, api, options): the refused calls with the longest contents (a long valid prefix was processed before the
+    # call failed) and a spread of the others
+    groups = {}
+    for r in rej:
+        groups.setdefault((r["sym"], r.get("api"), json.dumps(r.get("p"))), []).append(r)
+    per = max(2, (2 * n) // max(1, len(groups)))
+    picked = []
+    for g in groups.values():
+        g.sort(key=lambda e: -len(e.get("content") or []))
+        picked += g[:per // 2 + 1] + g[per // 2 + 1::max(1, len(g) // (per // 2 + 1))][:per // 2]
+    out = []
+    for r in picked[:3 * n]:
+        same = [a for a in acc if a["sym"] == r["sym"] and a.get("api") == r.get("api") and a.get("p") == r.get("p")] or [a for a in acc if a["sym"] == r["sym"]]
+        if not same:
+            continue
+        same.sort(key=lambda a: (a["res"].get("w", 0) * a["res"].get("hh", 1), abs(a["i"] - r["i"])))
+        a = same[min(len(same) - 1, (r["i"] * 7) % 5)]
+        out += [dict(strip(r), proj="outcome"), strip(a)]
+    return out
+
+
+def judge(chk, drive, jobs, module, cfg, nshards, tags_wanted, shard_key=None, heap="3g", describe=None, timeout=3000, pairs=40):
     """Runs jobs, validates events, reports reproduced bad tags selected by tags_wanted(ev, tag). Returns (events, extras)."""
     evs = vlib.run_drive(drive, jobs, chk.work)
     shards = vlib.shard(evs, nshards, key=shard_key)
@@ -70,20 +115,20 @@ def judge(chk, drive, jobs, module, cfg, nshards, tags_wanted, shard_key=None, h
                 # not reproducible alone: the defect may depend on the calls made before it in the same process (shared caches).
                 # Replay the whole prefix of the original run in a fresh process and validate only the event in question.
                 ev0 = reps[k]["event"]
-                prefix = [strip(e) for e in evs if e["i"] <= ev0["i"]]
-                for j in prefix[:-1]:
-                    j["proj"] = "outcome"
-                sub2 = vlib.run_drive(drive, prefix, chk.work, name="repro-prefix")
-                _, bad3, _, _ = vlib.validate_traces(chk.work, module, cfg, [sub2[-1:]], heap=heap, timeout=timeout)
-                if (1, why) not in {(b["l"], b["why"]) for b in bad3}:
+                rp = reproduce_with_history(chk, drive, evs, ev0, why, module, cfg, heap, timeout)
+                if rp is None:
                     raise vlib.Inconclusive("unreproduced rejection: %s" % k)
-                chk.report(k + " (history-dependent)", "%s: only after the %d calls made before it in the same process" % (k, len(prefix) - 1),
-                           dict(jobs=prefix, expect=why, last_only=True))
+                chk.report(k + " (history-dependent)", "%s: only after the %d calls made before it in the same process" % (k, len(rp["jobs"]) - 1), rp)
                 owners[idx] = None
                 continue
             ev = sub[idx]
             what = describe(ev, why) if describe else "%s: content=%r -> %s" % (k, bytes(ev["content"])[:40], why)
             chk.report(k, what, dict(jobs=rjobs[max(0, idx - 1):idx + 1] if why.startswith("pattern-depends") else [rjobs[idx]], expect=why))
+    if pairs:
+        pj = error_path_jobs(evs, pairs)
+        if pj:
+            pevs, _ = judge(chk, drive, pj, module, cfg, max(1, nshards // 4), tags_wanted, shard_key=shard_key, heap=heap, describe=describe, timeout=timeout, pairs=0)
+            chk.cov["refused_then_accepted_pairs"] = chk.cov.get("refused_then_accepted_pairs", 0) + len(pevs) // 2
     return evs, extras
 
 
@@ -98,7 +143,7 @@ def module_of(ev):
     return FAMILY.get(ev.get("sym"), "Trace1D")
 
 
-def judge_multi(chk, drive, jobs, tags_wanted, nshards=14, describe=None, timeout=6000):
+def judge_multi(chk, drive, jobs, tags_wanted, nshards=14, describe=None, timeout=6000, pairs=40):
     """Like judge, for job lists that mix symbologies: events are routed to their family's trace specification."""
     evs = vlib.run_drive(drive, jobs, chk.work)
     byfam = {}
@@ -137,18 +182,18 @@ def judge_multi(chk, drive, jobs, tags_wanted, nshards=14, describe=None, timeou
         if (len(rjobs), b["why"]) not in {(x["l"], x["why"]) for x in bad2}:
             # not reproducible alone: state shared by the calls made before it in the same process. Replay the whole prefix of the original
             # run (all families) in a fresh process and validate only the event in question.
-            prefix = [strip(e) for e in evs if e["i"] <= ev["i"]]
-            for j in prefix[:-1]:
-                j["proj"] = "outcome"
-            sub2 = vlib.run_drive(drive, prefix, chk.work, name="repro-prefix")
-            _, bad3, _, _ = vlib.validate_traces(chk.work, mod, mod + ".cfg", [sub2[-1:]], heap=HEAP[mod], timeout=timeout)
-            if (1, b["why"]) not in {(x["l"], x["why"]) for x in bad3}:
+            rp = reproduce_with_history(chk, drive, evs, ev, b["why"], mod, mod + ".cfg", HEAP[mod], timeout)
+            if rp is None:
                 raise vlib.Inconclusive("unreproduced rejection: %s" % k)
-            chk.report(k + " (history-dependent)", "%s: only after the %d calls made before it in the same process" % (k, len(prefix) - 1),
-                       dict(jobs=prefix, expect=b["why"], module=mod, last_only=True))
+            chk.report(k + " (history-dependent)", "%s: only after the %d calls made before it in the same process" % (k, len(rp["jobs"]) - 1), rp)
             continue
         what = describe(sub[-1], b["why"]) if describe else "%s: content=%r -> %s" % (k, bytes(ev["content"])[:40], b["why"])
         chk.report(k, what, dict(jobs=rjobs, expect=b["why"], module=mod))
+    if pairs:
+        pj = error_path_jobs(evs, pairs)
+        if pj:
+            pevs, _ = judge_multi(chk, drive, pj, tags_wanted, nshards=max(2, nshards // 4), describe=describe, timeout=timeout, pairs=0)
+            chk.cov["refused_then_accepted_pairs"] = chk.cov.get("refused_then_accepted_pairs", 0) + len(pevs) // 2
     return evs, allextras
 
 
@@ -162,9 +207,10 @@ def replay_generic(prop, path, module, cfg, heap="3g"):
     r = json.load(open(path))["replay"]
     chk = vlib.Check(prop, "quick")
     drive = vlib.build_harness(chk.work)
-    evs = vlib.run_drive(drive, r["jobs"], chk.work)
+    evs = vlib.run_drive(drive, r["jobs"], chk.work, env=(r.get("env") or None))
     if r.get("last_only"):
-        _, bad, _, _ = vlib.validate_traces(chk.work, module, cfg, [evs[-1:]], heap=heap)
+        keep = set(r.get("keep") or [])
+        _, bad, _, _ = vlib.validate_traces(chk.work, module, cfg, [[e for e in evs if e["i"] in keep] + evs[-1:]], heap=heap)
     else:
         _, bad, _, _ = vlib.validate_traces(chk.work, module, cfg, [evs], heap=heap)
     hit = [b for b in bad if b["why"] == r.get("expect", b["why"])]
@@ -292,6 +338,32 @@ def ean_jobs(rng, quick):
     add(U("123456") + [0xc3, 0xa9])          # 8 bytes, multi-byte rune
     add(U("12345") + [0xd9, 0xa1])           # 7 bytes with an Arabic-Indic digit
     add(U("1234567891") + [0xef, 0xbc, 0x91])
+    # every value of the weighted digit sum (EAN-13: 0..216, EAN-8: 0..135) that the check-digit arithmetic can meet, built constructively
+    def with_sum(n, target):
+        w = [3 if (n - 1 - k) % 2 == 0 else 1 for k in range(n)]       # weights from the right: 3, 1, 3, ...
+        d = [0] * n
+        order = list(range(n))
+        rng.shuffle(order)
+        rest = target
+        for k in order:
+            take = min(9, rest // w[k])
+            if take > 0 and rng.random() < 0.8:
+                take = rng.randint(max(0, take - 2), take) if rest - take * w[k] > 0 else take
+            d[k] = take
+            rest -= take * w[k]
+        for k in order:                                                 # spend what is left
+            while rest >= w[k] and d[k] < 9:
+                d[k] += 1
+                rest -= w[k]
+        return "".join(map(str, d)) if rest == 0 else None
+    for n, top in ((12, 216), (7, 135)):
+        for target in range(0, top + 1, 1 if not quick or n == 12 else 2):
+            for _ in range(1 if quick else 3):
+                s12 = with_sum(n, target)
+                if s12 is not None:
+                    add(s12)
+                    if rng.random() < 0.5:
+                        add(s12 + gen.ean_check(s12))
     add("123456AB")
     add("5512345B")
     # truncation aliases: runes whose low byte is an ASCII digit (U+0130.., U+0430.., U+FF30.., U+1D730..), at every position, in strings whose
